@@ -4,8 +4,8 @@ from . import c08
 
 MANIFEST = dict(
    technique="Lean 4 proof over the store model (conversion = OnAttach annotations on a private scratch copy of the Bag, then applyBag over an arbitrary visiting order) + history correspondence: real derivations, ToJSONSchema calls with every option setting and Parse calls, each document compared with the one an isolated twin family gives",
-   text="For the code after pending/C12-convert-scratch-bag.diff and pending/C08-clone-bag.diff: c12_pure (conversion leaves the store untouched), c12_deterministic / c12_twice (the annotated bag is a function of the schema's observation), c12_order_invariant / c12_doc_deterministic (the keywords are the same for every permutation of the annotated bag, i.e. for every Go map iteration order), c12_hist (along every interleaving of chaining calls, conversions and parses every live schema keeps its observation and converts to the same result). Witnesses for the pinned code: today_convert_pollutes_parent (converting String().Min(5) makes String() emit minLength 5) and today_applyBag_order_dependent (File().Size(3).Min(1) converts to minLength 3 or 1 depending on map order).",
-   note="The document model covers the part of conversion that goes through the Bag (constraint keywords, patterns) plus registry metadata, Values and Shape identity; structural recursion into member schemas, $defs/ref hoisting and option handling are not modelled and are covered only by the correspondence runs (6 option settings). The oracle document is obtained from a replayed isolated twin, which assumes constructors and chaining calls are deterministic. Trusted: Lean kernel, axioms propext/Classical.choice/Quot.sound, the Go harness and comparer.",
+   text="For the code after pending/C12-convert-scratch-bag.diff and pending/C08-clone-bag.diff: c12_pure (conversion leaves the store untouched), c12_deterministic / c12_twice (the annotated bag is a function of the schema's observation), c12_order_invariant / c12_doc_deterministic (the keywords are the same for every permutation of the annotated bag, i.e. for every Go map iteration order), c12_hist (along every interleaving of chaining calls, conversions and parses every live schema keeps its observation and converts to the same result). Registry: the Describe/Meta checks' OnAttach (run by the converter against the live schema) is modelled in full (convertReg): c12_reg_frame (no other schema's entry is written), c12_annotate_idem / c12_reg_twice / c12_reg_after_others (after the first conversion the registry is a fixed point, so every later conversion reads the same entry), c12_reg_partial (with the entry absorbed the conversion leaves the registry alone); the full statement c12_reg_full is refuted by conv_registers_meta_check (open known finding conversion-registers-meta-check). Witnesses for the pinned code: today_convert_pollutes_parent (converting String().Min(5) makes String() emit minLength 5) and today_applyBag_order_dependent (File().Size(3).Min(1) converts to minLength 3 or 1 depending on map order).",
+   note="The document model covers the part of conversion that goes through the Bag (constraint keywords, patterns) plus registry metadata, Values and Shape identity; structural recursion into member schemas, $defs/ref hoisting and option handling are not modelled and are covered only by the correspondence runs (9 option settings); which schemas a conversion visits (whose Describe/Meta callbacks run) is measured on a scout replica whose checks' exported OnAttach slices are wrapped with recorders. The oracle document is obtained from a replayed isolated twin, which assumes constructors and chaining calls are deterministic. Trusted: Lean kernel, axioms propext/Classical.choice/Quot.sound, the Go harness and comparer.",
    design="DESIGN.md §3.4, §5 C12")
 
 MODULES = ["Gozod.Proofs.C12"]
@@ -88,7 +88,10 @@ def run(res):
     res.coverage["rule"] = ("per base schema (every schema type) and per exported schema-returning method: H1 = derive child, convert child, parent, "
         "parse, convert both again with random options; H2 = two siblings converted alternately, then the parent, then a sibling derived after the "
         "conversions; H3 = random family of 3-6 schemas, 2n random conversions (6 option settings) / parses interleaved with further derivations, "
-        "then every schema converted once more. Oracle per conversion: the document of an isolated replayed twin. distinct = distinct op lines.")
+        "then every schema converted once more; H5 = private metadata registries; H6 = every catalogue check value (gozod.Describe/gozod.Meta with GlobalMeta examples of every JSON kind, "
+        "user-defined checks, every check the public methods build: storex/checks.go) through every method taking a core.ZodCheck, result converted 3x, parent, wrapper 3x, sibling, second check, all twice more; "
+        "H7 = the catalogue attached with Internals().AddCheck on every base, converted 3x, child 2x, sibling, all again. Oracle per conversion: the document of an isolated replayed twin; registry entries "
+        "before/after each conversion against the model (convertReg). distinct = distinct op lines.")
     res.assumptions += [
         "constructors and chaining calls are deterministic (the isolated twin is the same derivation replayed)",
         "the annotated Bag determines the constraint keywords; recursion into member schemas and $defs hoisting are validated by the runs only",
